@@ -19,6 +19,7 @@ def run(ctx):
     py = PyRepo.get()
     sc = S.SchemaChecker(py, LEMMA_CLASSES)
     checked = 0
+    broken: list[str] = []
     for name, lem in sc.lemmas.items():
         fn = lem.fn
         if not (fn.returns is not None and ast.unparse(fn.returns) == 'ProofThunk'):
@@ -34,7 +35,7 @@ def run(ctx):
             ctx.ob('lemma-schema', name, False, str(v), where)
         except S.Decline as d:
             if name in CHECKABLE:
-                ctx.require(False, f'lemma {name} was type-checked on the reference tree but is now outside the analysed subset: {d}')
+                broken.append(f'lemma {name} was type-checked on the reference tree but is now outside the analysed subset: {d}')
             ctx.decline(name, str(d))
     missing = [n for n in CHECKABLE if n not in sc.lemmas]
     ctx.require(not missing, f'anchor vanished: reference lemmas {missing[:5]} no longer exist')
@@ -59,6 +60,9 @@ def run(ctx):
                            f'{cname}.{mname} uses the rule {node.func.attr}; the propositional libraries may use only '
                            f'{sorted(ALLOWED_PRIMITIVES)}', py.where(ci.module, node))
         ctx.ob('primitive-confinement', cname, True, 'only propositional primitives are reachable', py.where(ci.module, ci.node))
+    # a reference lemma that left the analysed subset fails the run closed - unless a violation already explains it
+    if broken and not any(not o['ok'] for o in ctx.obligations):
+        ctx.require(False, broken[0])
     ctx.floor('lemma-schema', 75)
     ctx.analysed['lemmas type-checked'] = checked
     ctx.analysed['axioms per class'] = {k: len(v) for k, v in sc.axioms.items()}
